@@ -30,12 +30,12 @@ def options():
 LONG = {"-o": "--output", "-r": "--recursive", "-p": "--prefix", "-e": "--exclude"}
 
 
-def ob(sec, opt, mode, L, timeout, fixb=None, extra=(), long=False):
+def ob(sec, opt, mode, L, timeout, fixb=None, extra=(), long=False, nin=1):
     fixb = fixb or {}
     n = {"bool": 3, "str": 3 * L, "strseq": 6 * L, "excl": 6 * L, "exclseed": 6 * L, "outdir": 3, "wrongtype": 1}[mode]
-    return vf.CH(f"C16 {mode} {sec}.{opt}" + (f" {sorted(fixb.items())}" if fixb else "") + (f" with {' '.join(extra)} also on the command line" if extra else "") + (" (long option spellings)" if long else ""), "c16_layer.py",
+    return vf.CH(f"C16 {mode} {sec}.{opt}" + (f" {sorted(fixb.items())}" if fixb else "") + (f" with {' '.join(extra)} also on the command line" if extra else "") + (" (long option spellings)" if long else "") + (f" ({nin} input paths)" if nin != 1 else ""), "c16_layer.py",
                  dict(MODE=mode, SECTION=sec, OPTION=opt, CLI=(LONG[CLI[(sec, opt)]] if long and (sec, opt) in CLI else CLI.get((sec, opt))), L=L, NCP=n, FIXB=fixb,
-                      EXTRA=tuple(extra), SFLAG="--settings" if long else "-s"),
+                      EXTRA=tuple(extra), SFLAG="--settings" if long else "-s", NIN=nin),
                  timeout=(max(timeout, 600) if mode == "outdir" else timeout), encodes=ENC, unblock=["os.mkdir"],
                  symbolic="whether a -s file is given at all; for each of the three writable sources (per-user file, -s file, command line where a flag exists): whether it sets the option, and the value it gives"
                           + ("; relative_to_config switched on in the -s file and/or the per-user file" if mode == "outdir" else ""),
@@ -66,6 +66,9 @@ def build(tier):
         obs.append(ob(sec, opt, mode, L, t, extra=extra))
     for ss in (False, True):
         obs.append(ob("output", "directory", "outdir", L, t, dict(use_s=True, c_set=True, s_set=ss), extra=("-p", "P")))
+    # several input paths in one run: each is documented, in order, under the same settings in effect
+    for (sec, opt, mode) in (("input", "recursive", "bool"), ("rst", "prefix", "str"), ("input", "exclude_filters", "excl")):
+        obs.append(ob(sec, opt, mode, L, t, nin=2 if mode != "bool" else 3))
     # the long spellings of the five command-line options
     for (sec, opt, mode) in (("input", "recursive", "bool"), ("rst", "prefix", "str"), ("input", "exclude_filters", "excl")):
         obs.append(ob(sec, opt, mode, L, t, long=True))
